@@ -8,6 +8,9 @@ CONSTANTS
   DescCmds = {"cmd", "stop", "_stop"}
   Wires = {"w1", "w2", "wbad"}
   ValidW = {"w1", "w2"}
+  ValidWB = {"w2"}
+  Variants = {"a"}
+  OtherDescs = {}
   ENames = {"HardwareError", "Bogus"}
   KnownE = {"HardwareError"}
   Texts = {"t1"}
